@@ -51,6 +51,7 @@ def solver_check(fn):
         R.add(dtype_obs(SA))
         R.add(index_obs(SA))
         R.add(level_list_obs(SA))
+        R.add(partition_obs(SA))
         R.add(argument_obs(SA))
         R.add(zero_halo_obs(P))
         R.add(layout_obs(SA))
@@ -203,6 +204,24 @@ def level_list_obs(SA):
         return [req_ob("R-LVL-ORDER", site, "every list tested by the slot-counter idiom is the sorted list of distinct levels (%d guarded stores)" % n, True if n else None)]
     return [req_ob("R-LVL-ORDER", site, "every list tested by the slot-counter idiom is the sorted list of distinct levels", False,
                    detail="%s: the store into %s is guarded by membership in %s: a repeated level fills one slot and leaves the next one empty" % (k[0], k[1], k[2]), key={"array": k[1]}) for k in sorted(seen)]
+
+
+def partition_obs(SA):
+    """R-BLOCKS: work that is split into blocks of an axis (one block per thread) must cover the axis exactly: contiguous
+    blocks, the first starting at 0, the last ending at the axis length, cut points computed in exact integer arithmetic"""
+    seen = {}
+    n = 0
+    for key, (S, res) in SA.runs.items():
+        for r in res:
+            for e in r.events:
+                if e[0] == "block-loop":
+                    n += 1
+                if e[0] in ("partition-gap", "fragile-partition"):
+                    seen.setdefault((e[1], e[2]), key)
+    site = "src/bldfm/solver.py::steady_state_transport_solver and callees"
+    if not seen:
+        return [req_ob("R-BLOCKS", site, "every block-wise loop covers its axis exactly (%d block loops followed)" % n, True)] if n else []
+    return [req_ob("R-BLOCKS", site, "every block-wise loop covers its axis exactly", False, detail="%s: %s" % k, key={"where": k[0]}) for k in sorted(seen)]
 
 
 def output_gaps(SA):
